@@ -57,11 +57,11 @@ def scaled_spectrum_class():
     return ScaledSpectrum
 
 
-def make_obs(rng, model):
+def make_obs(rng, model, many=False):
     from taurex.data.spectrum.array import ArraySpectrum
     with np.errstate(all='ignore'):
         wn, depth, _, _ = model.model()
-    k = min(rng.choice([2, 3, 4, 7]), len(wn))
+    k = min(rng.choice([2, 3, 4, 7]), len(wn)) if not many else 150
     # bin centres near distinct native points, so that every observation overlaps the model's grid
     idx = sorted(rng.sample(range(len(wn)), k))
     gap = float(np.min(np.diff(wn)))
@@ -69,7 +69,7 @@ def make_obs(rng, model):
     wl = 10000 / cen
     base = float(np.mean(depth))
     spec = np.array([base * rng.uniform(0.5, 1.5) for _ in range(k)])
-    err = np.array([base * 10 ** rng.uniform(-3, 0) for _ in range(k)])
+    err = np.array([base * 10 ** (rng.uniform(-5, -4) if many else rng.uniform(-3, 0)) for _ in range(k)])
     cols = [wl, spec, err]
     if rng.random() < 0.5:
         cols.append(np.array([rng.uniform(0.05, 0.5) for _ in range(k)]) * wl)
@@ -210,8 +210,15 @@ def run(ctx):
     for i in range(ctx.n(45, 360)):
         kind = ['nestle', 'multinest', 'polychord'][i % 3]
         spec = setup(rng)
+        many = i in (3, 4, 5)
+        if many:
+            # every run, once per sampler: an observation with many bins and small error bars (150 bins, error bars 1e-5..1e-4 of the depth): the
+            # product of the error bars underflows a double, their summed logarithm does not
+            spec = tmodel.gen_spec(rng, ngas=2, contribs=['Absorption'], nlayers=3, nwn=160)
+            spec['T'] = [rng.uniform(500, 2000)]
+            ctx.count('observation with 150 bins and small error bars')
         model = tmodel.build(spec)
-        obs, arr = make_obs(rng, model)
+        obs, arr = make_obs(rng, model, many)
         fit = choose_fit(rng, spec, obs)
         rp = dict(kind=kind, spec=spec, obs=arr, fit=fit)
         opt, box, restore = capture(kind, obs, model)
